@@ -41,17 +41,48 @@ def family(prog, name, tier, taint_mode):
     raise KeyError(name)
 
 
-REBIND_OK = {
-    # attribute -> set of qualified functions allowed to rebind it on a FlodymArray-family / DimensionSet object
-    "values": {"FlodymArray.validate_values", "FlodymArray._check_value_format", "FlodymArray.set_values", "FlodymArray.apply"},
-    "dims": {"FlodymArray.copy_dims"},
-    "dim_list": {"DimensionSet.copy_dim_list", "DimensionSet.get_subset"},
-}
+REBIND_ATTRS = ("values", "dims", "dim_list")
+REBIND_ROOTS = {"set_values", "apply", "__init__"}      # besides every decorated validator: the documented in-place API
+
+
+def callers_of(prog, name):
+    out = []
+    for f in prog.all_functions():
+        for n in ast.walk(f.node):
+            if isinstance(n, ast.Call) and ((isinstance(n.func, ast.Attribute) and n.func.attr == name) or (isinstance(n.func, ast.Name) and n.func.id == name)):
+                out.append(f)
+                break
+    return out
+
+
+def rebind_allowed(prog, fn, seen=None):
+    """a function may rebind if it is a validator / part of the in-place API, or a private helper reachable only from such"""
+    seen = seen if seen is not None else set()
+    if fn.qual in seen:
+        return True
+    seen.add(fn.qual)
+    if fn.validator_kind or fn.name in REBIND_ROOTS:
+        return True
+    if not fn.name.startswith("_") or fn.name.startswith("__"):
+        return False
+    cs = [c for c in callers_of(prog, fn.name) if c is not fn]
+    return bool(cs) and all(rebind_allowed(prog, c, seen) for c in cs)
+
+
+def fresh_local(fn_node, name):
+    """`name` is bound in this function to a newly made object (constructor / copy / model_copy)"""
+    for n in ast.walk(fn_node):
+        if isinstance(n, ast.Assign) and any(isinstance(t, ast.Name) and t.id == name for t in n.targets) and isinstance(n.value, ast.Call):
+            f = ast.unparse(n.value.func)
+            if f.split(".")[-1] in ("copy", "model_copy", "deepcopy") or f[:1].isupper() or f == "cls" or f.endswith(".__class__"):
+                return True
+    return False
 
 
 def who_may_rebind(prog, rep):
-    """R3: `X.values = ...` / `X.dims = ...` / `X.dim_list = ...` only at the frozen sites; no validation bypass"""
-    rid = rep.rule("C13.who-may-rebind", "stores rebinding .values/.dims/.dim_list occur only in the validating/in-place API", floor=4)
+    """R3: `X.values = ...` / `X.dims = ...` / `X.dim_list = ...` only in validators, the in-place API (set_values, apply), private
+    helpers reachable only from those, or on an object the function has just made; no validation bypass"""
+    rid = rep.rule("C13.who-may-rebind", "stores rebinding .values/.dims/.dim_list occur only in the validating/in-place API or on freshly made objects", floor=4)
     rid2 = rep.rule("C13.no-validation-bypass", "no model_construct / object.__setattr__ / __dict__ write creates or edits a model", floor=1)
     n_scanned = 0
     for fn in prog.all_functions():
@@ -64,15 +95,21 @@ def who_may_rebind(prog, rep):
                 tgts = [node.target]
             for t in tgts:
                 for tt in (t.elts if isinstance(t, (ast.Tuple, ast.List)) else [t]):
-                    if isinstance(tt, ast.Attribute) and tt.attr in REBIND_OK:
+                    if isinstance(tt, ast.Attribute) and tt.attr in REBIND_ATTRS:
                         recv = ast.unparse(tt.value)
-                        owner_ok = fn.qual in REBIND_OK[tt.attr]
-                        # receivers that are not arrays/dimension sets: plotters' own x_array etc. are other attributes
-                        rep.oblige(rid, owner_ok, where=fn.qual, what=ast.unparse(node)[:100])
-                        if not owner_ok:
+                        if recv == "self":
+                            cls = fn.cls
+                            data_cls = cls is not None and any(k.name in ("FlodymArray", "DimensionSet", "Stock", "LifetimeModel") for k in prog.mro(cls))
+                            ok = (not data_cls) or rebind_allowed(prog, fn)
+                        elif isinstance(tt.value, ast.Name) and tt.attr != "values":
+                            ok = fresh_local(fn.node, tt.value.id)      # e.g. get_subset fills the list of the copy it has just made
+                        else:
+                            ok = False
+                        rep.oblige(rid, ok, where=fn.qual, what=ast.unparse(node)[:100])
+                        if not ok:
                             rep.add(Finding("C13", rid, fn.module, fn.qual, node,
-                                            f"`{recv}.{tt.attr}` is rebound outside the validating constructor / set_values / apply(inplace): "
-                                            f"the shape check is bypassed", line=node.lineno))
+                                            f"`{recv}.{tt.attr}` is rebound outside the validating constructor / set_values / apply(inplace) "
+                                            f"(and not on an object made here): the shape check is bypassed", line=node.lineno))
             if isinstance(node, ast.Call):
                 f = ast.unparse(node.func)
                 bad = f.endswith(".model_construct") or f in ("object.__setattr__",) or f.endswith(".__setattr__") \
@@ -85,9 +122,9 @@ def who_may_rebind(prog, rep):
     rep.oblige(rid2, True, where="package", what=f"{n_scanned} functions scanned: no model_construct / __setattr__ / __dict__.update")
     # positive control: the rule must recognise a bypass when there is one
     probe = ast.parse("def f(a, v):\n    a.values = v\n    return type(a).model_construct(dims=a.dims)\n")
-    hits = [n for n in ast.walk(probe) if (isinstance(n, ast.Assign) and isinstance(n.targets[0], ast.Attribute) and n.targets[0].attr in REBIND_OK)
+    hits = [n for n in ast.walk(probe) if (isinstance(n, ast.Assign) and isinstance(n.targets[0], ast.Attribute) and n.targets[0].attr in REBIND_ATTRS)
             or (isinstance(n, ast.Call) and isinstance(n.func, ast.Attribute) and n.func.attr == "model_construct")]
-    if len(hits) != 2:
+    if len(hits) != 2 or fresh_local(probe.body[0], "a"):
         from ..core import AnalysisError
         raise AnalysisError("C13 who-may-rebind rule no longer recognises its positive control")
 
@@ -100,12 +137,9 @@ def run(prog, rep):
     aspects = {("*", "invariant"): "C13.invariant", ("*", "atomic"): "C13.failed-call-changes-nothing",
                ("setitem-illformed", "raises"): "C13.refusals", ("ctor-illformed", "raises"): "C13.refusals",
                ("stock-ctor", "raises"): "C13.refusals", ("stock-ctor", "result"): "C13.accepted", ("ctor", "result"): "C13.accepted"}
-    for a in ("copy_dims", "validate_values", "_check_value_format", "set_values"):
-        prog.method("FlodymArray", a)
-    prog.method("Stock", "validate_stock_arrays")
-    prog.method("Stock", "validate_time_first_dim")
-    prog.method("DynamicStockModel", "init_lifetime_model")
-    prog.method("DimensionSet", "no_repeated_dimensions")
+    prog.method("FlodymArray", "set_values")
+    for c in ("Stock", "DynamicStockModel", "DimensionSet"):
+        prog.cls(c)
     run_array_property(prog, rep, "C13", ["arith", "reduce", "index", "misc", "illformed", "producers", "stocks", "stocks@uniform", "index@uniform"], aspects)
     who_may_rebind(prog, rep)
     rep.rules["C13.invariant"]["floor"] = 3000
